@@ -821,7 +821,7 @@ func modeC08(thorough bool, only string) {
 			// when the first one's refresh has already stored the renewed answer: later hits see the renewed one
 			small := base
 			small.cacheMem = 16 << 10
-			for k := 0; k < 3; k++ {
+			for k := 0; k < 4; k++ {
 				pr := n("r0t12d0")
 				add(fmt.Sprintf("p-redisrace%d", k), small, func(in *inst) {
 					// the refresh that the second hit starts in its turn is slow: for 700 ms nothing repairs the cache
@@ -836,10 +836,10 @@ func modeC08(thorough bool, only string) {
 					}()
 					go func() {
 						time.Sleep(9350 * time.Millisecond)
-						in.redis.getPlan <- 60 * time.Millisecond
+						in.redis.getPlan <- 300 * time.Millisecond
 						in.redis.getPlan <- 400 * time.Millisecond
 					}()
-				}, step{0, 1, pr}, step{ms(9500), 1, pr}, step{ms(9515), 1, pr}, step{ms(10150), 2, pr}, step{ms(10400), 1, pr}, step{ms(11300), 1, pr})
+				}, step{0, 1, pr}, step{ms(9500), 1, pr}, step{ms(9530), 1, pr}, step{ms(10420), 2, pr}, step{ms(10650), 1, pr}, step{ms(11600), 1, pr})
 			}
 		}
 		// single flight: many hits in the refresh window while the refresh is stalled, then renewed TTLs
